@@ -349,6 +349,23 @@ theorem sameLine_loop_spec (lines : List (Nat × Nat)) (ch : List (List Nat)) (h
     lineLoop (lines.length + 1) lines ch (ch.length + 1) = true ↔ ∃ l, l ∈ lines ∧ AllIn l.1 l.2 ch :=
   lineLoop_spec (lines.length + 1) lines ch (by omega) hl hs
 
+/-- **`andLine_same_line`** (the same-line conjunct of `andLineMatchTree`): with the sorted verified candidate offsets of
+    its content-substring children, the shortcut (fewest-candidates child, its line ranges via `atOffset`/`lineStart`,
+    the merge loop) answers `matchesFound` ⇔ some line of the document holds a candidate of every child -/
+theorem andLine_same_line (ctx : Ctx) (doc : Nat) (cands : List (List Nat)) (hne : cands ≠ [])
+    (hs : ∀ c, c ∈ cands → SortedC c)
+    (hb : ∀ c, c ∈ cands → ∀ x, x ∈ c → x < (ctx.text false doc).length) :
+    sameLineOf ctx doc (some cands) = St.found ↔
+      ∃ line, ∀ c, c ∈ cands → ∃ x, x ∈ c ∧ atOffset (newlineOffsets (ctx.text false doc)) x = line :=
+  sameLineOf_spec ctx doc cands hne hs hb
+
+/-! non-vacuity: text "ab\ncd ab\ncd": children {0, 6} ("ab") and {3, 9} ("cd"): line 2 holds 3 and 6 -/
+def exCtxL : Ctx := ⟨[[110]], [[97, 98, 10, 99, 100, 32, 97, 98, 10, 99, 100]], [true]⟩
+example : sameLineOf exCtxL 0 (some [[0, 6], [3, 9]]) = St.found ∧ sameLineOf exCtxL 0 (some [[0], [3, 9]]) = St.none := by
+  decide
+example : atOffset (newlineOffsets (exCtxL.text false 0)) 3 = 2 ∧ atOffset (newlineOffsets (exCtxL.text false 0)) 6 = 2 := by
+  decide
+
 /-! non-vacuity: lines [0,5) [5,9) [9,20); children with candidates {1, 10} and {6, 12}: only the third line holds both -/
 example : LinesOK [(0, 5), (5, 9), (9, 20)] ∧ (∀ c, c ∈ [[1, 10], [6, 12]] → SortedC c) := by
   refine ⟨⟨by simp, ?_⟩, ?_⟩
